@@ -1,6 +1,6 @@
 /-
   Engine `scan` (C11).  Op line (see harness/scan.cpp):
-    <text-hex|-> [alt=<text-hex|->]
+    <text-hex|-> [alt=<text-hex|->] [sent=<sentence of the specification, see Driver/ScanSentence.lean>]
   Output line:
     C <count> W <written> R <rd>/<len> V <cell>* P <text2-hex|-> C2 <count2> W2 <written2> R2 <rd2>/<len2> V2 <cell>*
     [ | A C <count> W <written> R <rd>/<len> V <cell>*]
@@ -11,6 +11,7 @@
 -/
 import RtoscModel.Pretty.C11Model
 import Driver.PrettyEngine
+import Driver.ScanSentence
 namespace Driver.ScanEngine
 open Rtosc Rtosc.Libc Rtosc.Pretty
 open Rtosc.ArgVal (Cell)
@@ -69,6 +70,11 @@ def step (line : String) : String :=
           | .ok (st, _) =>
             let text2 := st.out.takeWhile (· ≠ 0)
             g1 ++ " P " ++ toHex text2 ++ " " ++ (countScan text2 "2").1
+      -- the specification's reading of the sentence (if the op line carries one)
+      let spec : String := match more.find? (fun w => w.startsWith "sent=") with
+        | none => ""
+        | some w => Driver.ScanSentence.check (String.ofList (w.toList.drop 5)) text
+      let main := main ++ spec
       match more.find? (fun w => w.startsWith "alt=") with
       | none => main
       | some w =>
